@@ -59,7 +59,15 @@ fn all_entry_points(data: Vec<u8>, keys: std::sync::Arc<Vec<SignedSecretKey>>) -
         if let Ok(s) = std::str::from_utf8(&data) {
             if let Ok((c, _)) = CleartextSignedMessage::from_string(s) { let _ = c.signed_text(); for k in keys.iter().take(1) { let _ = c.verify(&SignedPublicKey::from(k.clone())); } n_ok += 1; }
         }
-        { let mut d = pgp::armor::Dearmor::new(&data[..]); let mut o = Vec::new(); if d.read_to_end(&mut o).is_ok() { n_ok += 1; } }
+        {
+            let mut d = pgp::armor::Dearmor::new(&data[..]); let mut o = Vec::new();
+            if d.read_to_end(&mut o).is_ok() { n_ok += 1; }
+            // a caller may ask again after an error (iterators over several armored blocks do)
+            let mut b = [0u8; 16]; let _ = d.read(&mut b); let _ = d.read(&mut b);
+        }
+        if let Ok((it, _)) = SignedPublicKey::from_armor_many(&data[..]) { for k in it.take(50) { if k.is_ok() { n_ok += 1; } } }
+        if let Ok((it, _)) = SignedSecretKey::from_armor_many(&data[..]) { for k in it.take(50) { if k.is_ok() { n_ok += 1; } } }
+        if let Ok((mut m, _)) = Message::from_armor(&data[..]) { let mut o = Vec::new(); let _ = m.read_to_end(&mut o); let _ = m.read_to_end(&mut o); }
         format!("returned ({n_ok} accepted)")
     })
 }
@@ -135,6 +143,66 @@ fn main() {
                 let r = watchdog(20, move || match s2.unlock(&Password::empty(), |pubp, privp| privp.decrypt(pubp, &v2, typ, &p2)) { Ok(Ok(_)) => "ok".into(), _ => "err".into() });
                 let ok = !(r.starts_with("PANIC") || r == "TIMEOUT");
                 cx.out.case("kwlen", &[len.to_string()], &["wrapped".into(), ki.to_string(), hx(&esk)], &if r == "ok" { "ok".to_string() } else { r.clone() }, Some(ok && r != "ok"), &format!("short-wrapped-key{ki}"));
+            }
+        }
+    }
+
+    // ---- 1b. ECDH: attacker-chosen key-wrap plaintext (a sender controls it completely), unwrapped and unpadded
+    {
+        let (curve, hash, sym) = (ECCCurve::Curve25519Legacy, HashAlgorithm::Sha256, SymmetricKeyAlgorithm::AES128);
+        let z = [7u8; 32]; let fp = [9u8; 20];
+        let param = pgp::crypto::ecdh::build_ecdh_param(&curve.oid(), sym, hash, &fp);
+        if let Ok(kek) = pgp::crypto::ecdh::kdf(hash, &z, 16, &param) {
+            let mut shapes: Vec<Vec<u8>> = Vec::new();
+            for n in [8usize, 16, 24, 32, 40] {
+                for b in (0u8..=48).chain([127, 128, 255]) { shapes.push(vec![b; n]); }
+                for pad in [0u8, 1, 7, 8, 9, n as u8 - 1, n as u8, n as u8 + 1, 200, 255] {
+                    let mut v = cx.rng.bytes(n); let k = (pad as usize).min(n); for x in v[n - k..].iter_mut() { *x = pad; } if k == 0 { v[n - 1] = pad; }
+                    shapes.push(v);
+                }
+                for _ in 0..(if thorough { 40 } else { 6 }) { shapes.push(cx.rng.bytes(n)); }
+            }
+            for padded in shapes {
+                let Ok(wrapped) = pgp::crypto::aes_kw::wrap(&kek, &padded) else { continue; };
+                let (w2, c2) = (wrapped.clone(), curve.clone());
+                let r = watchdog(20, move || match pgp::crypto::ecdh::derive_session_key(&z, &w2, w2.len(), c2, hash, sym, &fp) { Ok(_) => "ok".into(), Err(_) => "err".into() });
+                let ok = !(r.starts_with("PANIC") || r == "TIMEOUT");
+                cx.out.case("unpad", &[hx(&padded)], &["ecdh-unpad".into(), hx(&padded)], &r, Some(ok), "ecdh-keywrap-plaintext");
+            }
+        }
+    }
+
+    // ---- 1c. text-mode verification hashes the (attacker-chosen) document before any cryptographic check:
+    //         line endings at every edge of the 512-octet normalisation window
+    {
+        use pgp::types::SigningKey;
+        let k = &keys[1];
+        let pk = SignedPublicKey::from(k.clone());
+        if let Ok(sig) = DetachedSignature::sign_text_data(Rng::new(5), &k.primary_key, &Password::empty(), k.primary_key.hash_alg(), &b"other"[..]) {
+            let edge = [b'\r', b'\n', b'a'];
+            for blocks in 1..=3usize {
+                for delta in [-1i32, 0, 1] {
+                    let n = (blocks * 512) as i32 + delta;
+                    for first in edge { for last in edge { for pen in edge { for bstart in edge {
+                        let mut d = vec![b'a'; n as usize];
+                        d[0] = first; let l = d.len(); d[l - 1] = last; d[l - 2] = pen;
+                        // the first octet of the last 512-octet block, and the last of the one before
+                        let bs = ((l - 1) / 512) * 512; d[bs] = bstart; if bs > 0 { d[bs - 1] = pen; }
+                        let (s2, p2, d2) = (sig.clone(), pk.clone(), d.clone());
+                        let r = watchdog(20, move || match s2.verify(&p2, &d2[..]) { Ok(_) => "ok".into(), Err(_) => "err".into() });
+                        let ok = !(r.starts_with("PANIC") || r == "TIMEOUT");
+                        if !ok || (first == b'a' && pen == b'a') { cx.out.case("", &[], &["text-verify".into(), hx(&d)], &r, Some(ok), "text-verify-window-edges"); }
+                        // the cleartext framework over the same text
+                        if let Ok(t) = String::from_utf8(d.clone()) {
+                            if blocks == 1 || !ok {
+                                let kk = k.clone();
+                                let r2 = watchdog(20, move || match CleartextSignedMessage::sign(Rng::new(6), &t, &kk.primary_key, &Password::empty()) { Ok(c) => { let _ = c.signed_text(); match c.verify(&SignedPublicKey::from(kk.clone())) { Ok(_) => "ok".into(), Err(_) => "err".into() } } Err(_) => "err".into() });
+                                let ok2 = !(r2.starts_with("PANIC") || r2 == "TIMEOUT");
+                                if !ok2 || (first == b'a' && pen == b'a' && bstart == b'a') { cx.out.case("", &[], &["cleartext-window".into(), hx(&d)], &r2, Some(ok2), "cleartext-window-edges"); }
+                            }
+                        }
+                    } } } }
+                }
             }
         }
     }
